@@ -1,7 +1,8 @@
 // C16 -- algorithm and container helpers equal their straightforward reference.
-// Engine E: exhaustive enumeration of all sequences over {0,1,2} up to length 6 (quick: 5), all strings over
-// {a,b,#} up to length 7 (quick: 6), all maps over 5 (quick: 4) keys, all predicates / element functions on the
+// Engine E: exhaustive enumeration of all sequences over {0,1,2} up to length 7 (quick: 5), all strings over
+// {a,b,#} up to length 8 (quick: 6), all maps over 6 (quick: 4) keys, all predicates / element functions on the
 // 3-element domain, for every listed source kind; reference = hand-written loops over std:: containers.
+// Lvalue arguments of array::append/join/push_back and tuple::concat are compile probes (C16_probe_*.cpp).
 //
 // The shards live in C16_algorithm.cpp (map, map_optional, map_concat, fold, fold_break, loop, loop_break, all_of,
 // contains(_if), generate_n, repeat), C16_algorithm2.cpp (find_*, index_of, equal_range, binary_search, remove(_if),
